@@ -22,6 +22,14 @@ from tools.gen.csrc import ExtractError
 
 from vlib import build as vbuild
 
+THEOREMS = ["JanetModel.Props.C10." + t for t in (
+    "tables_consistent", "no_bad_rows", "verify_sound", "verify_entry", "fiber_image_wf_of_all_checks", "fiber_image_wf_partial",
+    "function_image_wf_of_all_checks", "function_image_wf_partial", "env_untrusted_checked_of_all_checks",
+    "witness_fiber_frame0", "witness_function_env_count", "witness_def_env_index")] + ["JanetModel.Bytecode.verify_sound_generic"]
+IMAGE_OBLIGATIONS = ["JanetModel.Unmarsh.Obligations." + t for t in ("image_checks_present", "fiber_image_wf", "function_image_wf", "env_untrusted_checked")]
+# witness image -> the check (Gen/ImageChecks.lean field) whose presence must reject it
+WITNESS_CHECK = {"fiber_frame0_resumable": "frame0", "function_env_count_mismatch": "fnEnvCount", "def_environment_negative": "defEnvIndex"}
+
 HDIR = os.path.join(VERIF, "harness", "C10")
 # ASan + the pointer/bounds/alignment part of UBSan.  Arithmetic undefined behaviour of number handling (shifts, signed
 # overflow, float casts) is C14's subject; an overflow that lets a bound check pass still ends in an ASan report here.
@@ -258,12 +266,15 @@ def run(ctx):
         return ctx.finish("proof", {"evaluations": 0, "distinct_nontrivial": 0, "rule": "n/a", "samples": []})
     tree = ctx.build.tree
     # (A) regenerate
-    ops = lb = None
+    ops = lb = image_checks = None
     try:
         ctx.gen("Bytecode.lean", gen_bytecode.render(tree))
         opl, types, jint = gen_bytecode.extract(tree)
         lb, _ = gen_marsh.extract(tree)
         ops = ig.Ops(opl, types, gen_vm.asm_mnemonics(tree))
+        ctx.gen("VmAccess.lean", gen_vm.render(tree))
+        ctx.gen("ImageChecks.lean", gen_vm.render_image_checks(tree))
+        image_checks = gen_vm.image_checks(tree)
     except ExtractError as e:
         broken.append("translator: %s" % e)
         ctx.broken.append(broken[-1])
@@ -278,11 +289,72 @@ def run(ctx):
         ctx.violation("harness-build", {"kind": "build", "error": str(e)[-2000:]}, found=False, what="harness does not compile against the current tree")
         return ctx.finish("proof", {"evaluations": 0, "distinct_nontrivial": 0, "rule": "n/a", "samples": []})
 
+    # (B,C) kernel check + audit
+    broken += ctx.obligations("JanetModel.Props.C10", THEOREMS)
+    img_broken = ctx.obligations("JanetModel.Unmarsh.Obligations", IMAGE_OBLIGATIONS)
+    broken += img_broken
+    if not quick and not broken:
+        ok, log = ctx.leanchecker("JanetModel.Props.C10")
+        if not ok:
+            broken.append("leanchecker JanetModel.Props.C10: " + log[-300:])
+    exe = ctx.driver()
+    bad_rows = []
+    if exe:
+        r = ctx.model(["rows", "consistent"], exe=exe)
+        if r[0].startswith("bad"):
+            bad_rows = [int(x) for x in r[0].split()[1:]]
+        if r[1] != "true" and not bad_rows:
+            broken.append("tables_consistent is false (masks / dispatch table)")
+    # (D) correspondence of the verify model with the real janet_verify
+    vrng = ctx.rng.fork("verify")
+    vlines = []
+    for i in range(4000 if quick else 60000):
+        sc = vrng.range(1, 6)
+        nc, nd, ne = vrng.below(4), vrng.below(3), vrng.below(3)
+        bc, _ = ig.gen_bytecode(vrng, ops, sc, nc, nd, ne, wild=(i % 3) * 3)
+        if vrng.chance(1, 10):
+            bc[vrng.below(len(bc))] = vrng.below(1 << 32)
+        if vrng.chance(1, 20):
+            bc[-1] = vrng.below(1 << 32)
+        ar = vrng.choice([0, 0, 1, sc, sc + 1])
+        va = vrng.below(2)
+        vlines.append("%d %d %d %d %d %d %s" % (sc, ar, va, nc, nd, ne, b"".join(w.to_bytes(4, "little") for w in bc).hex()))
+    vdiffs = []
+    if exe:
+        rc, out, err = run_cmd([hx], input=("\n".join("v " + l for l in vlines) + "\n").encode(), timeout=600, env=ENV)
+        impl = out.decode().splitlines()
+        model = ctx.model(["verify " + l for l in vlines], exe=exe)
+        if rc != 0 or len(impl) != len(vlines):
+            broken.append("janet_verify harness died: rc=%s %s" % (rc, err[-300:]))
+        else:
+            for l, a, b in zip(vlines, impl, model):
+                if a != b:
+                    vdiffs.append({"def": l, "impl": a, "model": b})
+            if vdiffs:
+                broken.append("correspondence verify model / janet_verify: %d differing, first %r" % (len(vdiffs), vdiffs[0]))
+                ctx.broken.append(broken[-1])
+    vcodes = {}
+    for a in (impl if exe and not broken else []):
+        vcodes[a] = vcodes.get(a, 0) + 1
+    # witness synthesis for failed table rows: a 1-slot function using that opcode with every operand field maximal
+    synth = []
+    for opn in bad_rows:
+        name = ops.name_of.get(opn, "op%d" % opn)
+        ctx.say("table row of %s is not covered by the verifier: synthesising a witness" % name)
+        for fields in (0xFFFFFF, 0xFFFF00, 0xFF0000, 0xFF00FF, 0x00FFFF, 0x0000FF, 0x00FF00):
+            w = opn | (fields << 8)
+            for tail in ([ops.by_name["JOP_RETURN_NIL"]], [ops.by_name["JOP_RETURN"]]):
+                d = dict(flags=0, slotcount=1, arity=0, min_arity=0, max_arity=0, constants=[], environments=[], defs=[], bytecode=[w] + tail)
+                synth.append(("row-witness", name, "u " + ig.Enc(lb).val(("fn", dict(**{"def": d}, envs=[]))).hex()))
+        broken.append("verify_sound: table row %s (opcode %d) is not consistent" % (name, opn))
+
     # (E) direct oracle
     base = load_base(ctx, v)
     cases = gen_inputs(ctx, ig, base, ops, lb, quick)
-    for name, b in sorted(witness_images(ig, lb, ops).items()):
+    wit = sorted(witness_images(ig, lb, ops).items())
+    for name, b in wit:
         cases.insert(0, ("witness", name, "u " + b.hex()))
+    cases = synth + cases
     lines = [c[2] for c in cases]
     ctx.say("running %d inputs through the ASan harness" % len(lines))
     outs, crashes = run_parallel(hx, lines)
@@ -296,6 +368,14 @@ def run(ctx):
             s["acc"] += 1
         else:
             s["rej"] += 1
+    # the model's prediction for the three witness images: accepted exactly when the corresponding check is absent
+    if image_checks is not None:
+        for (kind, label, line), o in zip(cases, outs):
+            if kind == "witness" and o is not None:
+                predicted_accept = not image_checks[WITNESS_CHECK[label]]
+                if o.startswith("acc") != predicted_accept:
+                    broken.append("correspondence: witness %s is %s by the implementation, model (Gen/ImageChecks.%s=%s) predicts the opposite" % (
+                        label, "accepted" if o.startswith("acc") else "rejected", WITNESS_CHECK[label], image_checks[WITNESS_CHECK[label]]))
     rej_classes = {}
     for o in outs:
         if o and o.startswith("rej"):
@@ -337,15 +417,21 @@ def run(ctx):
         ctx.violation("broken:" + broken[0][:80], {"kind": "broken-obligation", "broken": broken}, found=False, what="no longer shown to hold: " + "; ".join(broken)[:600])
     acc_total = sum(s["acc"] for s in stats.values())
     cov = {
-        "evaluations": len(lines),
+        "evaluations": len(lines) + len(vlines),
         "distinct_nontrivial": len(set(lines)),
         "rule": "non-trivial = distinct input line (image bytes or asm text); every input is decoded by the real unmarshal/asm under ASan+UBSan, every accepted "
                 "function/fiber is then called with 6 argument vectors / resumed, cancelled, stepped, iterated, printed, hashed, compared, re-marshalled and collected",
         "samples": [c[2][:80] for c in cases[:3]] + [c[2][:80] for c in cases[len(cases) // 2:len(cases) // 2 + 2]],
         "generators": stats, "accepted": acc_total, "reject_classes": dict(sorted(rej_classes.items(), key=lambda kv: -kv[1])[:25]),
         "crash_signatures": {k: v[3] for k, v in by_sig.items()},
+        "verify_correspondence_cases": len(vlines), "verify_correspondence_diffs": len(vdiffs), "verify_return_codes": vcodes,
+        "image_checks_present": image_checks, "bad_table_rows": [ops.name_of.get(o, o) for o in bad_rows],
     }
-    return ctx.finish("proof", cov, assumptions=["memory safety of the C code itself is ASan/UBSan-tested, not proved"])
+    return ctx.finish("proof", cov, assumptions=[
+        "memory safety of the C code itself is ASan/UBSan-tested, not proved; the theorems are about the Lean models of janet_verify / image validation",
+        "image validation is modelled on decoded header / frame records (byte-level totality of unmarshal is tested by truncation at every offset, not proved)",
+        "tools/gen/vmaccess.py transcribes handler operand uses and the presence of each validation by anchored regexes (ExtractError when the shape changes)",
+        "PEG bytecode verifier: tested only (mutation of marshalled pegs under ASan), no peg_verify_sound theorem"])
 
 
 def replay(ctx, path):
@@ -361,5 +447,5 @@ def replay(ctx, path):
             ctx.violation("crash:" + sig, dict(r, stderr=crashes[-1][2][-3000:]), what="replayed: " + sig)
         else:
             ctx.say("replay: input no longer crashes: %s" % outs[-1])
-        return ctx.finish("proof", {"evaluations": len(lines), "distinct_nontrivial": len(lines), "rule": "replay", "samples": lines[-1:]})
+        return ctx.finish("proof", {"evaluations": len(lines) + len(vlines), "distinct_nontrivial": len(lines), "rule": "replay", "samples": lines[-1:]})
     return run(ctx)
